@@ -3,7 +3,8 @@
 (* C17: inconsistent models are refused at render time.                    *)
 (*                                                                         *)
 (* A small universe of real objects -- database D with table T (columns a, *)
-(* b; index I over a), table U (columns x, y), enum E (item i) and the     *)
+(* b; index I over a), table U (columns x, y), table V = "s2"."t" (same     *)
+(* bare name as T), enum E (item i) and the                                *)
 (* composite reference R = T.(a, b) > U.(x, y) -- is driven through        *)
 (* histories of edits that make the model inconsistent in exactly ONE way  *)
 (* (an attribute set to None, an element detached by a delete_* call, a    *)
@@ -20,7 +21,7 @@ CONSTANT MaxSteps
 Attrs == {"tname", "tschema", "aname", "atype", "ename", "eschema", "iname"}
 Edits == {[op |-> "unset", a |-> x] : x \in Attrs} \cup {[op |-> "reset", a |-> x] : x \in Attrs}
          \cup {[op |-> o] : o \in {"delete_index", "add_index", "delete_col_a", "delete_col_b", "add_a_to_T", "add_b_to_T",
-                                   "add_b_to_U", "set_inline", "unset_inline", "delete_table", "add_table"}}
+                                   "add_b_to_U", "add_b_to_V", "set_inline", "unset_inline", "delete_table", "add_table"}}
 
 Clean == [set |-> [x \in Attrs |-> TRUE], itab |-> TRUE, atab |-> "T", btab |-> "T", rinline |-> FALSE, tdb |-> TRUE]
 
@@ -34,6 +35,7 @@ Enabled(st, e) ==
     [] e.op = "add_a_to_T" -> st.atab = "none"
     [] e.op = "add_b_to_T" -> st.btab = "none"
     [] e.op = "add_b_to_U" -> st.btab = "none"
+    [] e.op = "add_b_to_V" -> st.btab = "none"
     [] e.op = "set_inline" -> ~st.rinline
     [] e.op = "unset_inline" -> st.rinline
     [] e.op = "delete_table" -> st.tdb
@@ -49,6 +51,7 @@ Apply(st, e) ==
     [] e.op = "add_a_to_T" -> [st EXCEPT !.atab = "T"]
     [] e.op = "add_b_to_T" -> [st EXCEPT !.btab = "T"]
     [] e.op = "add_b_to_U" -> [st EXCEPT !.btab = "U"]
+    [] e.op = "add_b_to_V" -> [st EXCEPT !.btab = "V"]
     [] e.op = "set_inline" -> [st EXCEPT !.rinline = TRUE]
     [] e.op = "unset_inline" -> [st EXCEPT !.rinline = FALSE]
     [] e.op = "delete_table" -> [st EXCEPT !.tdb = FALSE]
@@ -60,7 +63,7 @@ Defects(st) ==
   \cup (IF st.itab THEN {} ELSE {"index detached"})
   \cup (IF st.atab = "none" THEN {"a detached"} ELSE {})
   \cup (IF st.btab = "none" THEN {"b detached"} ELSE {})
-  \cup (IF st.btab = "U" THEN {"mixed side"} ELSE {})
+  \cup (IF st.btab \in {"U", "V"} THEN {"mixed side"} ELSE {})      \* V has the same bare name as T: still another table
   \cup (IF st.rinline THEN {"composite inline"} ELSE {})
   \cup (IF st.tdb THEN {} ELSE {"table detached"})
 
